@@ -128,7 +128,7 @@ package cbreaker
 //@   ensures recovering: c.state == 2 && c.until == lastclock + c.recoveryDuration && c.rc != nil && fresh(c.rc) && rcOK(c.rc) && ramped(c.rc) && c.rc.duration == c.recoveryDuration && c.rc.start == lastclock
 
 //@ func (*CircuitBreaker).activateFallback
-//@   props C05 C12
+//@   props C05 C12 C18
 //@   atomic c.m
 //@   assume clock_stable
 //@   modifies c.state, c.until, c.rc, ratioController.allowed, ratioController.denied, ratioController.tlast
